@@ -137,6 +137,8 @@ def compare(ip, op, a, b):
                 r = False
             elif isinstance(a, SBool) and isinstance(b, bool) or isinstance(b, SBool) and isinstance(a, bool):
                 r = wrap_bool(ops.bool_term(a) == ops.bool_term(b))
+            elif (isinstance(a, bool) and not isinstance(b, SBool)) or (isinstance(b, bool) and not isinstance(a, SBool)):
+                r = False        # an int / bytes / str / float value is never the True / False singleton
             else:
                 raise Unsupported('identity comparison on symbolic value')
         else:
@@ -1096,7 +1098,17 @@ def m_all(ip, args, kwargs):
 
 
 def m_sorted(ip, args, kwargs):
+    from .interp import InterpFunction
     vals = ip.iterate(args[0])
+    key = kwargs.get('key')
+    if key is not None and not isinstance(key, Sym) and not (isinstance(key, type) or hasattr(key, '__code__') and is_concrete(vals)):
+        pass
+    if isinstance(key, InterpFunction) or (key is not None and not is_concrete(vals)):
+        keys = [ip.call(key, [v]) for v in vals]
+        if is_concrete(keys):
+            order = sorted(range(len(vals)), key=lambda i: keys[i], reverse=bool(kwargs.get('reverse', False)))
+            return [vals[i] for i in order]
+        raise Unsupported('sorted() with symbolic keys')
     if is_concrete(vals) and is_concrete(kwargs):
         return ip.native(sorted, [vals], kwargs)
     raise Unsupported('sorted() of symbolic values (needs an assumed contract)')
